@@ -157,7 +157,14 @@ func internalMarshal(v any) (*internalStruct, error) {
 		rt = rt.Elem()
 	}
 
-	switch rt.Kind() {
+	kind := rt.Kind()
+	if kind == reflect.Struct && hasOwnJSON(rt) {
+		// a struct type with its own JSON form (time.Time: unexported fields only) is written
+		// through it, like a based type, not field by field; the decoder needs no change
+		kind = reflect.Invalid
+	}
+
+	switch kind {
 	case reflect.Struct:
 		// 处理struct，复用map部分处理
 		key, ok := rm[rt]
@@ -428,6 +435,16 @@ func internalUnmarshal(v *internalStruct) (any, error) {
 		}
 	}
 	return result.Interface(), nil
+}
+
+var (
+	jsonMarshalerType   = reflect.TypeOf((*json.Marshaler)(nil)).Elem()
+	jsonUnmarshalerType = reflect.TypeOf((*json.Unmarshaler)(nil)).Elem()
+)
+
+// hasOwnJSON: values of t marshal themselves and pointers to t unmarshal themselves.
+func hasOwnJSON(t reflect.Type) bool {
+	return t.Implements(jsonMarshalerType) && reflect.PointerTo(t).Implements(jsonUnmarshalerType)
 }
 
 // definedContainerKey is the registered name of a defined map / slice / array type; the
